@@ -49,10 +49,12 @@ def _add(v, acc, depth=0):
         if v == v:
             acc['floats'].add(v)
     elif isinstance(v, str):
-        if len(v) <= MAX_STR and '\n' not in v:
+        if '\n' not in v and (len(v) <= MAX_STR or (
+                len(v) <= 400 and ' ' not in v and looks_like_regex(v))):
             acc['strs'].add(v)
     elif isinstance(v, bytes):
-        if len(v) <= MAX_STR:
+        if len(v) <= MAX_STR or (len(v) <= 400 and b' ' not in v and
+                                 looks_like_regex(v.decode('latin1'))):
             acc['bytes'].add(v)
     elif isinstance(v, (tuple, frozenset)) and depth < 3:
         items = list(v)
@@ -169,6 +171,21 @@ class Pool:
         self.novel_strs = sorted(nstrs)
         self.novel_bytes = sorted(set(self.novel['bytes']) | {
             x.encode('utf-8', 'surrogatepass') for x in self.novel['strs']})
+        # strings matching the regular expressions found in the tree
+        rx = expand_regexes(acc['strs'] | {
+            b.decode('latin1') for b in acc['bytes']})
+        self.regex_samples = rx
+        extra = set()
+        for pat, samples in rx.items():
+            extra.update(samples)
+            if pat in nstrs or pat.encode('latin1', 'replace') in set(
+                    self.novel['bytes']):
+                nstrs.update(samples)
+        self.novel_strs = sorted(nstrs)
+        self.novel_bytes = sorted(set(self.novel_bytes) | {
+            x.encode('utf-8', 'surrogatepass') for x in nstrs})
+        acc = dict(acc)
+        acc['strs'] = set(acc['strs']) | extra
         self._init_rest(acc)
 
     def _init_rest(self, acc):
@@ -247,6 +264,7 @@ class Pool:
         return {'ints': len(self.ints), 'strs': len(self.strs),
                 'bytes': len(self.bytes), 'floats': len(self.floats),
                 'tuples': len(self.tuples),
+                'regexes_expanded': len(self.regex_samples),
                 'novel': {k: [repr(x)[:60] for x in v[:20]]
                           for k, v in self.novel.items() if v}}
 
@@ -265,6 +283,108 @@ def pool():
     if _POOL is None:
         _POOL = Pool(harvest())
     return _POOL
+
+
+
+# ---- strings that MATCH a regular expression found in the tree --------------
+# A rule such as  ^x-(?:expires|message-ttl|max-length(?:-bytes)?)$  names its
+# trigger values without containing any of them as a literal.  Patterns among
+# the harvested strings are expanded into a handful of matching strings with
+# the standard library's own regex parser.
+
+def _regex_samples(pattern, rnd, limit=24):
+    import re
+    try:
+        import re._parser as sre_parse          # Python >= 3.11
+    except ImportError:                         # pragma: no cover
+        import sre_parse
+    try:
+        tree = sre_parse.parse(pattern)
+    except (re.error, RecursionError, OverflowError, ValueError, TypeError):
+        return []
+    LIT, IN, BRANCH, SUB = (sre_parse.LITERAL, sre_parse.IN,
+                            sre_parse.BRANCH, sre_parse.SUBPATTERN)
+
+    def gen_in(items):
+        neg = False
+        chars = []
+        for op, av in items:
+            if op is sre_parse.NEGATE:
+                neg = True
+            elif op is LIT:
+                chars.append(chr(av))
+            elif op is sre_parse.RANGE:
+                lo, hi = av
+                chars.extend(chr(c) for c in (lo, hi, (lo + hi) // 2))
+            elif op is sre_parse.CATEGORY:
+                name = str(av)
+                chars.extend({'CATEGORY_DIGIT': '07', 'CATEGORY_WORD': 'aZ_9',
+                              'CATEGORY_SPACE': ' \t'}.get(
+                                  name.split('.')[-1], 'x'))
+        if neg:
+            pool = [c for c in 'aZ0-_. /!é' if c not in chars]
+            return rnd.choice(pool or ['~'])
+        return rnd.choice(chars or ['x'])
+
+    def gen(seq, depth=0):
+        out = []
+        for op, av in seq:
+            if op is LIT:
+                out.append(chr(av))
+            elif op is sre_parse.NOT_LITERAL:
+                out.append('x' if av != ord('x') else 'y')
+            elif op is IN:
+                out.append(gen_in(av))
+            elif op is sre_parse.ANY:
+                out.append(rnd.choice('a0-. '))
+            elif op is BRANCH:
+                out.append(gen(rnd.choice(av[1]), depth + 1))
+            elif op is SUB:
+                out.append(gen(av[-1], depth + 1))
+            elif op in (sre_parse.MAX_REPEAT, sre_parse.MIN_REPEAT):
+                lo, hi, sub = av
+                hi = min(hi, lo + 3, 40)
+                n = rnd.choice([lo, hi, rnd.randint(lo, hi)])
+                out.append(''.join(gen(sub, depth + 1) for _ in range(n)))
+            elif op is sre_parse.ATOMIC_GROUP if hasattr(
+                    sre_parse, 'ATOMIC_GROUP') else False:
+                out.append(gen(av, depth + 1))
+            # anchors, assertions, group references: contribute nothing
+        return ''.join(out)
+
+    seen = []
+    for _ in range(limit * 3):
+        try:
+            s = gen(tree)
+        except (RecursionError, IndexError, ValueError, TypeError):
+            break
+        if s not in seen and len(s) <= MAX_STR * 2:
+            try:
+                if re.search(pattern, s) is None:
+                    continue
+            except re.error:
+                break
+            seen.append(s)
+        if len(seen) >= limit:
+            break
+    return seen
+
+
+def looks_like_regex(s):
+    return len(s) >= 3 and any(c in s for c in '|[(\\^$') and \
+        not s.startswith(('Could', 'Unknown', 'Invalid', 'Max '))
+
+
+def expand_regexes(strs, seed=0):
+    import random
+    rnd = random.Random('regex:%s' % seed)
+    out = {}
+    for s in sorted(strs):
+        if looks_like_regex(s):
+            ss = _regex_samples(s, rnd)
+            if ss:
+                out[s] = ss
+    return out
 
 
 if __name__ == '__main__':
